@@ -21,13 +21,13 @@ def run(ctx):
     ctx.rule("c15: real app (2 validators, custodial + non-custodial servicer, 2 apps, funded accounts, accounts holding 0 / fee-1 / fee / fee+1, "
              "an account with two denominations, a 2-key multisig account), blocks of 1-4 txs. Core: every fee shape {equal, below, above, zero, "
              "two denominations, unsorted, duplicate, zero coin, other denomination only, above balance, 1, two denominations below, double} × "
-             "{simple key, two-denomination account, multisig account, a message whose handler fails}; partially signed multisig transfers; authenticated txs whose signer is not in Msg.GetSigners() (output-address edit signed by the current output address for a funded and an underfunded operator, application transfer to a funded key signed by the current application; operator / old output / new output / old app / new key are distinct accounts with distinct balances); then random: 15 message kinds × signer "
+             "{simple key, two-denomination account, multisig account, a message whose handler fails}; partially signed multisig transfers; authenticated txs whose signer is not in Msg.GetSigners() (output-address edit signed by the current output address for a funded and an underfunded operator, application transfer to a funded key signed by the current application; operator / old output / new output / old app / new key are distinct accounts with distinct balances); parameter changes in the MIDDLE of a block by the ACL owner — auth/FeeMultipliers raised (send ×7, default ×2) and restored, auth/MaxMemoCharacters 256→10→256, auth/TxSigLimit 7→3→7 — each followed in the same block and in the next block by txs at the old fee / new fee / 20- and 10-byte memos / 3- and 2-key multisig (the model reads the parameters from the dumped pre-state of every tx); then random: 15 message kinds × signer "
              "relation × ~12% signature defects × 60% non-standard fees × 5% resubmissions; three chains: default multiplier 1, default multiplier 3, and per-type multipliers (send ×5, stake_validator ×2, default ×2). Per tx: dumped "
              "pre-state, real ante handler on a dropped cache, real DeliverTx, balances and a digest of every store. non-trivial = the real ante "
              "handler passed; distinct = distinct trace line")
     ctx.trust(*ante_common.COMMON_TRUST)
     ctx.assume("the tx indexer is fed with every block's results before the next block (the harness does what Tendermint's indexer service does)")
-    n = 4000 if ctx.thorough else 450
+    n = 4000 if ctx.thorough else 520
     ctx.stream("fees", "c15", DRIVER, n=n, timeout=3000, drv_timeout=3000)
     if ctx.thorough:
         for s in range(2):
